@@ -17,6 +17,11 @@ func init() {
 			Kind: slip.MacroSymbol,
 			Name: "shiftf",
 			Args: []*slip.DocArg{
+				{
+					Name: "place",
+					Type: "place",
+					Text: "The first place to get a value from and to set a value to.",
+				},
 				{Name: "&rest"},
 				{
 					Name: "places",
